@@ -8,6 +8,7 @@ import (
 
 	"github.com/0xrawsec/sod"
 
+	"verifsim/model"
 	"verifsim/shapes"
 	"verifsim/simrt"
 )
@@ -355,5 +356,19 @@ func (s *Seq) mangleCalls(r *simrt.Rand, muts []string) {
 	call("DeleteAll", func() { db.DeleteAll(rec0()) })
 	call("Commit", func() { db.Commit(rec0()) })
 	call("Close", func() { db.Close() })
+	// dropping the whole database, then using the handle again: errors, not panics
+	db2 := sod.Open(s.Root)
+	call("Drop", func() { db2.Drop() })
+	call("Count-after-Drop", func() { db2.Count(rec0()) })
+	call("Get-after-Drop", func() { o := rec0(); o.Initialize(uuids[0]); db2.Get(o) })
+	call("Search-after-Drop", func() { db2.Search(rec0(), "Lid", ">", 0).Collect() })
+	call("Insert-after-Drop", func() { db2.InsertOrUpdate(GenRec(r, s.Pools, false)) })
+	call("Create-after-Drop", func() { db2.Create(rec0(), s.Cfg.Schema()) })
+	call("Insert-after-Create", func() {
+		if err := db2.InsertOrUpdate(GenRec(r, s.Pools, false)); err != nil && model.Valid(&shapes.Rec{}) {
+			_ = err // may be invalid by its Raw value: only panics matter here
+		}
+	})
+	call("Close-after-Drop", func() { db2.Close() })
 	s.stat("probe:damaged-db-survived")
 }
